@@ -168,6 +168,12 @@ def run_case(case, ctx):
             if rs.rand() < 0.3:
                 # a weighting mask (fractional / signed observation weights): "applied entrywise" means multiplied in
                 mask = (mask * rs.uniform(-1, 2, size=mask.shape)).astype(dt)
+            elif rs.rand() < 0.3 and mask.size >= 2:
+                # confidence weights normalised to mean one: their sum equals the number of entries although none of them is one
+                flat = np.full(mask.size, 1.0)
+                half = mask.size // 2
+                flat[:half], flat[half:2 * half] = 0.5, 1.5
+                mask = rs.permutation(flat).reshape(mask.shape).astype(dt)
         desc.update(mats=[list(m.shape) for m in mats], skip=skip, weights=w is not None, mask=mask is not None)
         cls = ("single" if len(rem) == 1 else "multi") + ("+weights" if w is not None else "") + ("+mask" if mask is not None else "")
         f = lambda: tenalg.khatri_rao(list(mats), weights=w, skip_matrix=skip, mask=mask)
@@ -258,9 +264,12 @@ def run_case(case, ctx):
         n = rs.randint(1, 5)
         feat = gen.shape(rs, rs.randint(1, 4), 1, 3)     # samples that are vectors, matrices or order-3 tensors
         order = int(rs.randint(1, 4))
+        if (case["idx"] // len(FUNS)) % 500 == 1:
+            # many samples: implementations that accumulate over slabs of samples must weight the slabs by their size
+            n, feat, order = int(rs.randint(4100, 4300)), [16], 3
         X = A([n] + feat)
         desc.update(shape=list(X.shape), order=order)
-        cls = "order%d" % min(order, 2)
+        cls = "order%d" % min(order, 2) + ("+many-samples" if n > 1000 else "")
         f = lambda: tenalg.higher_order_moment(X, order)
         r = ref.higher_order_moment(X, order)
     elif fn == "sample_khatri_rao":
